@@ -5,7 +5,7 @@ from tools.harness import common, planwalk as pw, plangen
 ID = 'C09'
 TARGETS = ['MindsVerif.Props.C09']
 P = 'MindsVerif.Props.C09.'
-THEOREMS = [P + 'C09_partial', P + 'C09_plan_select', P + 'C09_add_step', P + 'C09_join', P + 'C09_join_unrepaired',
+THEOREMS = [P + 'C09_partial', P + 'C09_plan_select', P + 'C09_cte_lookup', P + 'C09_witness_cte_keys', P + 'C09_add_step', P + 'C09_join', P + 'C09_join_unrepaired',
             P + 'C09_error_class', P + 'C09_witness_1', P + 'C09_witness_1_not', P + 'C09_witness_2_not',
             P + 'C09_witness_3_not']
 ASSUME = [
@@ -55,6 +55,25 @@ def impl_line(sql, cat):
     if r['kind'] == 'user-error':
         return 'err ' + {'PlanningException': 'planning', 'NotImplementedError': 'notimpl'}[r['exc']], r
     return 'err internal', r
+
+
+def cte_impl(c):
+    """real plan_cte + get_integration_select_step on a bare table name: 'cte t<k>' | 'table' | 'err …'"""
+    from mindsdb_sql.planner import query_planner as qp
+    from mindsdb_sql.parser.ast import Select, Star, Identifier
+    from mindsdb_sql.exceptions import PlanningException
+    try:
+        q = pw.parse('with ' + ', '.join('%s as (select * from int1.tab1)' % d for d in c['defs']) + ' select 1 from int2.tab3')
+        planner = qp.QueryPlanner(q, **copy.deepcopy(plangen.catalogs()[c['cat']]))
+        planner.plan_cte(q)
+        step = planner.get_integration_select_step(Select(targets=[Star()], from_table=Identifier(parts=[c['ref']])))
+        if type(step).__name__ == 'SubSelectStep':
+            return 'cte ' + pw.num_of(step.dataframe.step_num)
+        return 'table'
+    except (PlanningException, NotImplementedError):
+        return 'err planning'
+    except Exception:
+        return 'err internal'
 
 
 def kf_match(k, f):
@@ -128,10 +147,33 @@ def run(chk):
             chk.samples.append(dict(sql=c['sql'], catalog=c['cat'], model=pw.canon_model_line(o)))
     except Exception as e:
         chk.oblige('corr:plan_join', 'correspondence', False, 'driver failed: %s' % e)
+    # ---- correspondence: the CTE dictionary (plan_cte stores, get_integration_select_step tests and fetches)
+    cte_cases = []
+    try:
+        rng = common.rng_for(chk.seed, 'C09/cte')
+        cte_cases = [plangen.cte_case(rng) for _ in range(300 if quick else 3000)]
+        oe = common.lean_run('Plan', ['cte e ' + c['line'] for c in cte_cases])
+        of = common.lean_run('Plan', ['cte f ' + c['line'] for c in cte_cases])
+        impl = [cte_impl(c) for c in cte_cases]
+        res = {}
+        for mode, outs in (('as-written', oe), ('case-folded', of)):
+            bad = [(c, o, i) for c, o, i in zip(cte_cases, outs, impl) if o != i]
+            res[mode] = bad
+        mode = 'as-written' if len(res['as-written']) <= len(res['case-folded']) else 'case-folded'
+        bad = res[mode]
+        first = dict(defs=bad[0][0]['defs'], ref=bad[0][0]['ref'], model=bad[0][1], impl=bad[0][2], keys=mode,
+                     sql=bad[0][0]['sql']) if bad else None
+        d = {'keys_matched': mode}
+        for i in impl:
+            d['cte/' + i.split(' ')[0]] = d.get('cte/' + i.split(' ')[0], 0) + 1
+        chk.corr_result('cte_lookup', len(cte_cases), len(bad), first, d)
+    except Exception as e:
+        chk.oblige('corr:cte_lookup', 'correspondence', False, 'driver failed: %s' % e)
     # ---- impl-level probe: invariant + exception class on every real plan of the broad stream
     rng = common.rng_for(chk.seed, 'C09/probe')
     pdist = {}
     stream = [(s, c) for (s, c) in plangen.FIXED] + [(c['sql'], c['cat']) for c in cases] + \
+        [(c['sql'], c['cat']) for c in cte_cases] + \
         list(plangen.probe_stream(rng, n_probe))
     for sql, cname in stream:
         out, f = pw.probe(sql, cats[cname])
